@@ -32,7 +32,7 @@ import (
 
 // Env says how the operator envelope signature is produced for a call.
 type Env struct {
-	Mode string // n: no verifier (before the fork) | v: signed by Op | f: signed by an unregistered operator id | i: corrupted signature
+	Mode string // n: no verifier (before the fork) | v: signed by Op | f: signed by an unregistered operator id | i: corrupted signature | w: names operator Op whose REGISTERED key is not an RSA key (signed with some RSA key)
 	Op   spectypes.OperatorID
 }
 
@@ -60,6 +60,7 @@ type Case struct {
 	DS           *dutystore.Store // the duty store of THIS case's validator when it is not the world's (handler-driven scenarios)
 	dsKeys       [][3]uint64      // proposer entries put by a replayed `duties` line
 	Honest       int              // C10: 1 = the next message was emitted by a correct operator (must not be rejected), 2 = … in a fault-free in-order timely run (must be accepted)
+	Outside      bool             // the case's own duty store holds duties with inCommittee = false (the node does not run the validator)
 	refusedCalls int              // calls for ids this node does not serve (per-id state oracle)
 	Exempt       bool             // the case touches the out-of-scope empty-committee validator: panics are compared with the model, not flagged
 }
@@ -75,12 +76,16 @@ func NewCase(run *hx.Run, w *World, signed bool, label string) *Case {
 
 // NewCaseWithStore: a fresh validator that shares `ds` (e.g. with real duty handlers). The `reset` line carries no
 // duties; `duties` ops announce the store's contents to the model whenever they are sampled.
-func NewCaseWithStore(run *hx.Run, w *World, ds *dutystore.Store, label string) *Case {
-	c := &Case{run: run, W: w, DS: ds, Label: label,
+func NewCaseWithStore(run *hx.Run, w *World, ds *dutystore.Store, outside bool, label string) *Case {
+	c := &Case{run: run, W: w, DS: ds, Label: label, Outside: outside,
 		last: map[sigKey][2]uint64{}, counts: map[sigKey]map[roundKey]int{}, props: map[sigKey]map[roundKey][]byte{}}
 	c.MV = validation.NewMessageValidator(w.NetCfg, validation.WithNodeStorage(w.NS), validation.WithDutyStore(ds))
 	b := w.NetCfg.Beacon
-	l := fmt.Sprintf("reset w=%d fork=0 own=1 g=%d d=%d spe=%d epp=%d perm=%d pd=- sd=-", w.N, b.MinGenesisTime(),
+	own := 1
+	if outside {
+		own = 2 // the duty store holds the validator's duties with inCommittee = false
+	}
+	l := fmt.Sprintf("reset w=%d fork=0 own=%d g=%d d=%d spe=%d epp=%d perm=%d pd=- sd=-", w.N, own, b.MinGenesisTime(),
 		uint64(b.SlotDurationSec().Seconds()), b.SlotsPerEpoch(), b.EpochsPerSyncCommitteePeriod(), uint64(w.NetCfg.PermissionlessActivationEpoch))
 	c.Lines = append(c.Lines, l)
 	run.Emit(l, "ok")
@@ -92,12 +97,13 @@ func (c *Case) AnnounceDuties(slots []uint64, periods []uint64) {
 	var pd, sd []string
 	for _, s := range slots {
 		e := s / 32
-		if c.DS.Proposer.ValidatorDuty(phase0.Epoch(e), phase0.Slot(s), valIndex) != nil {
+		// raw store contents (shim), not the accessor the validator itself uses
+		if stored, _ := dutystore.VerifStoredProposer(c.DS.Proposer, phase0.Epoch(e), phase0.Slot(s), valIndex); stored {
 			pd = append(pd, fmt.Sprintf("%d:%d:%d", e, s, valIndex))
 		}
 	}
 	for _, p := range periods {
-		if c.DS.SyncCommittee.Duty(p, valIndex) != nil {
+		if stored, _ := dutystore.VerifStoredSync(c.DS.SyncCommittee, p, valIndex); stored {
 			sd = append(sd, fmt.Sprintf("%d:%d", p, valIndex))
 		}
 	}
@@ -126,7 +132,7 @@ func (c *Case) ReplayDuties(ws []string) {
 		for _, t := range strings.Split(pd, ",") {
 			var e, s, i uint64
 			fmt.Sscanf(t, "%d:%d:%d", &e, &s, &i)
-			c.DS.Proposer.Add(phase0.Epoch(e), phase0.Slot(s), phase0.ValidatorIndex(i), &eth2apiv1.ProposerDuty{Slot: phase0.Slot(s), ValidatorIndex: phase0.ValidatorIndex(i)}, true)
+			c.DS.Proposer.Add(phase0.Epoch(e), phase0.Slot(s), phase0.ValidatorIndex(i), &eth2apiv1.ProposerDuty{Slot: phase0.Slot(s), ValidatorIndex: phase0.ValidatorIndex(i)}, !c.Outside)
 			c.dsKeys = append(c.dsKeys, [3]uint64{e, s, i})
 		}
 	}
@@ -134,7 +140,7 @@ func (c *Case) ReplayDuties(ws []string) {
 		for _, t := range strings.Split(sd, ",") {
 			var p, i uint64
 			fmt.Sscanf(t, "%d:%d", &p, &i)
-			c.DS.SyncCommittee.Add(p, phase0.ValidatorIndex(i), &eth2apiv1.SyncCommitteeDuty{ValidatorIndex: phase0.ValidatorIndex(i)}, true)
+			c.DS.SyncCommittee.Add(p, phase0.ValidatorIndex(i), &eth2apiv1.SyncCommitteeDuty{ValidatorIndex: phase0.ValidatorIndex(i)}, !c.Outside)
 			c.dsKeys = append(c.dsKeys, [3]uint64{p, 0, i})
 		}
 	}
@@ -175,6 +181,16 @@ func (c *Case) envelope(encoded []byte, env Env) (wrapped []byte, opID spectypes
 	return commons.EncodeSignedSSVMessage(encoded, opID, sig), opID, sig
 }
 
+// sigLetter: the abstract result of the operator signature check for the model. For an operator registered with a key that
+// is not a usable RSA key the result is fixed by construction ("i": verification must fail) — the real check then runs only
+// INSIDE the guarded validation call, where a panic is a finding and not a harness crash.
+func (c *Case) sigLetter(payload []byte, opID spectypes.OperatorID, sig []byte) string {
+	if isWeirdOp(opID) {
+		return "i"
+	}
+	return envLetterOf(validation.VerifVerifySignature(c.MV, payload, opID, sig))
+}
+
 func envLetterOf(err error) string {
 	if err == nil {
 		return "v"
@@ -200,7 +216,7 @@ func (c *Case) ValidateSSV(msg *spectypes.SSVMessage, at time.Time, env Env, kin
 			enc = []byte{1}
 		}
 		_, opID, sig := c.envelope(enc, env)
-		letter = envLetterOf(validation.VerifVerifySignature(c.MV, enc, opID, sig))
+		letter = c.sigLetter(enc, opID, sig)
 		verifier = func() error { return validation.VerifVerifySignature(c.MV, enc, opID, sig) }
 	}
 	fields, signers := c.W.Abstract(c.MV, msg, at, letter)
@@ -243,7 +259,7 @@ func (c *Case) ValidateP2P(data []byte, topic string, at time.Time, kind string)
 		payload = p
 		envOp = opID
 		if sdo {
-			letter = envLetterOf(validation.VerifVerifySignature(c.MV, p, opID, sig))
+			letter = c.sigLetter(p, opID, sig)
 		}
 	}
 	var inner *spectypes.SSVMessage
